@@ -15,6 +15,10 @@ pub struct BadCell {
 pub struct BadRc {
     pub shared: Rc<u8>,
 }
+/// the signature says nothing about auto traits, the hidden type (a boxed trait object) is neither Send nor Sync
+pub fn bad_opaque(x: &str) -> impl Iterator<Item = &str> {
+    Box::new(x.split(',')) as Box<dyn Iterator<Item = &str>>
+}
 /// Send + Sync, but history-dependent: must be found by the type-tree walk, not by auto traits.
 pub struct BadMutexMemo {
     pub memo: Mutex<HashMap<String, String>>,
